@@ -110,6 +110,18 @@ CHECKS = {
         note="completeness of the Edwards law on curve points, associativity and subgroup closure are cited, so "
              "'exactly the group sum / [s]P' is relative to those lemmas",
         tech="symbolic execution of the real composer + symbolic row semantics + SMT (z3)"),
+    "C13": dict(
+        cat="other", ref="§5 C13",
+        text="Bounded solver verdict: the 12 rows emitted by assert_torsion_free_point (real composer on symbolic "
+             "coordinates) equal, row by row, the curve equation of the auxiliary point Q, three Edwards doublings and "
+             "P = 8Q for ALL (P,Q); every path of append_point / append_public_point / assert_equal_public_point / "
+             "append_constant_point / the generator check on a symbolic extended point is classified by its "
+             "comparisons (curve and T-consistency comparisons proven equal to the spec polynomials; torsion/identity "
+             "comparisons identified with the dependency's predicates) and accepts exactly when the spec predicate "
+             "holds; Z = 0 always errors; panic paths infeasible.",
+        note="cofactor-8 argument and the dependency's scalar multiplication are cited/trusted; acceptance is decided "
+             "over the explored paths (first 9 comparisons flipped exhaustively)",
+        tech="symbolic execution of the real composer with path exploration + SMT (z3)"),
     "C19": dict(
         cat="other", ref="§5 C19",
         text="Bounded solver verdict: the real fft/ifft/coset_fft/coset_ifft, Polynomial arithmetic, ruffini, "
